@@ -6,6 +6,7 @@
 //! loud failure (a broken obligation for the properties that import the group).
 
 mod common;
+mod g_coltypes;
 mod g_escape;
 mod g_hashable;
 mod g_quote;
@@ -32,6 +33,7 @@ fn main() {
             "hashable" => g_hashable::generate(repo),
             "take" => g_take::generate(repo),
             "types" => g_types::generate(repo),
+            "coltypes" => g_coltypes::generate(repo),
             _ => Err(format!("unknown group {g}")),
         };
         match r {
